@@ -225,6 +225,17 @@ def _whose(v, others):
     return "unknown-vector"
 
 
+def vname(v):
+    """a vector, named when it is the model vector of a known text"""
+    if _is_vec(v):
+        for t in ITEM_TEXTS:
+            if list(v) == vec(t):
+                return f"model({t!r})"
+    if isinstance(v, (list, tuple)) and v and all(isinstance(x, (list, tuple)) or x is None for x in v):
+        return "[" + ", ".join(vname(x) for x in v) + "]"
+    return repr(v)
+
+
 def req_name(k, kind, payload):
     if kind == "B":
         return f"request {k} _batch_get_embeddings({payload!r})"
@@ -284,7 +295,7 @@ def _blocked_at(w, names, fut):
                 break
         else:
             if inner and inner[-1] == "wait":
-                what = "a-replaced-batch-event"
+                what = "an-event-the-index-no-longer-holds"
     return f"{fn}-awaits-{what}"
 
 
@@ -329,7 +340,7 @@ def judge(cfg, env, w, info):
                 others = [t for t in all_texts if t != payload]
                 how = _whose(v, others)
                 out.append((f"wrong-vector:batch:{how}",
-                            f"{name} returned {v!r}, not model({payload!r}) = {vec(payload)!r}"))
+                            f"{name} returned {vname(v)}, not model({payload!r})"))
         elif kind == "G":
             exp = [vec(t) for t in payload]
             if not isinstance(v, (list, tuple)):
@@ -343,7 +354,7 @@ def judge(cfg, env, w, info):
                     i = next(i for i, (x, e) in enumerate(zip(v, exp)) if not _same(x, e))
                     how = _whose(v[i], [t for t in all_texts if t != payload[i]])
                 out.append((f"wrong-vector:list:{how}",
-                            f"{name} returned {list(v)!r}, expected the model vectors in input order {exp!r}"))
+                            f"{name} returned {vname(list(v))}, expected {vname(exp)}"))
         else:
             texts = [getattr(i, "text", None) for i in v] if isinstance(v, (list, tuple)) else None
             if texts != [payload]:
